@@ -899,6 +899,9 @@ class TextXVisitor(RRELVisitor):
             if isinstance(modifier, Match):
                 # Separator
                 modifier.rule_name = "sep"
+                # (told apart from a grammar rule that happens to be named
+                # "sep")
+                modifier._tx_separator = True
                 modifiers["sep"] = modifier
             elif isinstance(modifier, tuple):
                 modifiers["multiplicity"] = modifier
